@@ -531,6 +531,8 @@ impl Connection {
         // Whether the congestion check has been applied to the current datagram (or the datagram is
         // a loss probe, which is exempt from it)
         let mut datagram_congestion_checked = false;
+        // Whether the current datagram has been charged to a loss probe
+        let mut datagram_is_loss_probe = false;
 
         // Iterate over all spaces and find data to send
         let mut space_idx = 0;
@@ -722,6 +724,7 @@ impl Connection {
                 }
 
                 // Allocate space for another datagram
+                datagram_is_loss_probe = self.spaces[space_id].loss_probes != 0;
                 let next_datagram_size_limit = match self.spaces[space_id].loss_probes {
                     0 => segment_size,
                     _ => {
@@ -778,6 +781,12 @@ impl Connection {
                     }
                 }
                 datagram_congestion_checked |= ack_eliciting && space_id == SpaceId::Data;
+                // A loss probe that travels in a datagram started by another packet number space
+                // uses up one of the probes of its timeout, unless that datagram is a probe already
+                if self.spaces[space_id].loss_probes != 0 && !datagram_is_loss_probe {
+                    self.spaces[space_id].loss_probes -= 1;
+                    datagram_is_loss_probe = true;
+                }
                 // Finish current packet without adding extra padding
                 if let Some(builder) = builder_storage.take() {
                     builder.finish_and_track(now, self, sent_frames.take(), buf);
@@ -1745,18 +1754,27 @@ impl Connection {
             // Conventional loss probe
             _ => 2,
         };
-        self.spaces[space].loss_probes = self.spaces[space].loss_probes.saturating_add(count);
+        // A probe timeout releases at most two datagrams from congestion control. Probes granted by
+        // an earlier timeout that have not been sent yet are superseded rather than accumulated.
+        for id in SpaceId::iter() {
+            self.spaces[id].loss_probes = 0;
+        }
+        let mut count = count;
         // Handshake data that could not be sent yet because the congestion window is full (e.g. of
         // 0-RTT data the peer cannot acknowledge before the handshake completes) must go out with
-        // this probe as well, or neither side can ever make progress.
+        // this probe as well, or neither side can ever make progress. It takes the place of one of
+        // the two probe datagrams; packets of the timed-out space are coalesced into it.
         for earlier in [SpaceId::Initial, SpaceId::Handshake] {
             if earlier < space
                 && self.spaces[earlier].crypto.is_some()
                 && !self.spaces[earlier].pending.is_empty(&self.streams)
             {
-                self.spaces[earlier].loss_probes = self.spaces[earlier].loss_probes.saturating_add(1);
+                self.spaces[earlier].loss_probes = 1;
+                count = cmp::max(count - 1, 1);
+                break;
             }
         }
+        self.spaces[space].loss_probes = count;
         self.pto_count = self.pto_count.saturating_add(1);
         self.set_loss_detection_timer(now);
     }
